@@ -83,7 +83,7 @@ pub open spec fn ast_spans_ok(src: &Src, a: &GrammarAST, gat: Option<(StrBuf, Sp
 }
 
 // add_duplicate_occurrence (parser.rs): appends `dup` to the error of that kind whose first span is `orig`, or pushes a new
-// error with the spans [orig, dup]
+// error with the spans [orig, dup] (proved of the real body in unit c12_dupocc; this contract is its consequence, lemma_assumed_contracts_follow)
 #[verifier::external_body]
 pub fn add_duplicate_occurrence(errs: &mut Vec<YaccGrammarError>, kind: YaccGrammarErrorKind, orig_span: Span, dup_span: Span, src: &Src)
     requires errs_ok(src, old(errs)@), span_ok(src, orig_span), span_ok(src, dup_span), // OBLG: C12.yacc.decls.duplicate_report_spans_renderable
